@@ -492,6 +492,9 @@ class IOOpsMixin:
         args = ["extract-geotherm", "-g", gpath if op.get("abs", True) else os.path.relpath(gpath, self._cwd_of(client)), "-v", ",".join(op["variables"])]
         if op.get("hide_header"):
             args += ["-h"]
+        if op.get("pname", "P") != "P" or op.get("tname", "T") != "T":
+            args += ["--t-col", op["pname"], "--p-col", op["tname"]]      # sic: per the help text --t-col names the pressure column
+            self.probe("geotherm_custom_column_names")
         truths = {v: self._table_truth(client, v) for v in op["variables"]} if "O-extract" in self.oracles else {}
         main(args=args, standalone_mode=False)
         out = self.stdout._local.buf.getvalue()
@@ -514,7 +517,7 @@ class IOOpsMixin:
         if len(rows) != len(pts):
             self.verdict("O-extract", "C19", client, i, f"extract-geotherm returned {len(rows)} rows for a geotherm of {len(pts)} points")
             return
-        ip, it = colnames.index("P"), colnames.index("T")
+        ip, it = colnames.index(op.get("pname", "P")), colnames.index(op.get("tname", "T"))
         for r, (toks, pt) in enumerate(zip(rows, pts)):
             if len(toks) != len(colnames) + len(variables):
                 self.verdict("O-extract", "C19", client, i, f"extract-geotherm row {r} has {len(toks)} fields")
